@@ -1,6 +1,6 @@
 SPECIFICATION Spec
 CONSTANTS
-  ModelSet = {"gemm_relu", "matmul_add", "conv_flatten", "reshapes", "gru", "lstm", "rnn", "lstm_peephole", "gru_lbr", "conv_same_stride", "conv2d_same_stride", "matmul_left_weights", "gemm_row_bias"}
+  ModelSet = {"gemm_relu", "gemm_beta", "matmul_add", "conv_flatten", "reshapes", "gru", "lstm", "rnn", "lstm_peephole", "gru_lbr", "conv_same_stride", "conv2d_same_stride", "matmul_left_weights", "gemm_row_bias"}
   MaxBatch = 3
 INVARIANT BatchIndependent
 CHECK_DEADLOCK FALSE
